@@ -20,6 +20,7 @@ type puppet struct {
 	mu   sync.Mutex
 	pkts []puppetPkt
 	conns []net.Conn
+	onConn func(net.Conn)
 }
 
 type puppetPkt struct {
@@ -87,8 +88,14 @@ func (b *Bench) addPuppet(name string, ip net.IP) *puppet {
 				p.mu.Unlock()
 			case cn := <-p.ep.streamCh:
 				p.mu.Lock()
-				p.conns = append(p.conns, cn)
+				f := p.onConn
+				if f == nil {
+					p.conns = append(p.conns, cn)
+				}
 				p.mu.Unlock()
+				if f != nil {
+					go f(cn)
+				}
 			case <-b.sim.quit:
 				return
 			}
